@@ -38,10 +38,10 @@ m = {
         'name': 'coq-proof+correspondence',
         'path': '/verif/check',
         'serves_properties': [c['property_id'] for c in checks],
-        'kind_free_text': 'Coq 8.16.1 development in /verif/coq (model, theorems, executable checkers), extracted to OCaml; Rust harness in /verif/harness runs the implementation from /repo on the same inputs; python driver /verif/check compares and searches for failing inputs; for the tokenizer tables, 32 functions of src/bdd.rs, var_is_free, replace_var, eval_recursive, the loop of fp and the loop nests of two generators a translator (lib/vlib/src*.py) regenerates Gallina from the current source and coqc re-proves its equality with the model on every run',
+        'kind_free_text': 'Coq 8.16.1 development in /verif/coq (model, theorems, executable checkers), extracted to OCaml; Rust harness in /verif/harness runs the implementation from /repo on the same inputs; python driver /verif/check compares and searches for failing inputs; for the tokenizer tables, 32 functions of src/bdd.rs, var_is_free, replace_var, eval_recursive, the loop of fp, five operations of src/set.rs and the loop nests of two generators a translator (lib/vlib/src*.py) regenerates Gallina from the current source and coqc re-proves its equality with the model on every run',
     }],
     'checks': checks,
-    'notes': 'Every check rebuilds Props/<id>.vo through make (full .vo), parses Print Assumptions for every theorem, scans the sources for Admitted/Axiom/…, rebuilds the harness against /repo\'s working tree and runs the suites of the property\'s cone; where a translator applies (C01 - C09, C15, C17, C20) it first regenerates the obligations about the source as it is now (DESIGN.md 15.7b - 15.7g). See DESIGN.md.',
+    'notes': 'Every check rebuilds Props/<id>.vo through make (full .vo), parses Print Assumptions for every theorem, scans the sources for Admitted/Axiom/…, rebuilds the harness against /repo\'s working tree and runs the suites of the property\'s cone; where a translator applies (C01 - C09, C15, C17, C19, C20) it first regenerates the obligations about the source as it is now (DESIGN.md 15.7b - 15.7h). See DESIGN.md.',
     'not_applicable': na,
 }
 json.dump(m, open(os.path.join(ROOT, 'MANIFEST.json'), 'w'), indent=1)
